@@ -125,7 +125,8 @@ class C18:
             with open(os.path.join(ctx.scratch, name), "wb") as f:
                 f.write(struct.pack("<H", magic) + data[2:])
             out.append("@" + name)
-        self.generated = out
+        # the Dropbox sample (a loader of its own, which patches and restores shared tables) is drawn as often as they are
+        self.generated = out + [rel for rel in pd.corpus_files() if "dropbox" in rel]
         return out
 
     def fresh(self, ctx, host, op):
